@@ -113,6 +113,14 @@ theorem step_no_bug (p : P) (h : Inv p) (op : Op) (hv : handlesValid p op = true
     · split
       · split <;> simp
       · simp
+  | addKernelMapping a b c d =>
+    simp only [step]
+    split
+    · split <;> simp
+    · simp
+  | removeKernelMapping a => simp [step]
+  | removeMapping a b => simp only [step]; split <;> simp
+  | clearMappings a => simp only [step]; split <;> simp
   | string s => simp [step]
   | category a b => simp [step]
   | subcategory a b =>
@@ -191,7 +199,7 @@ theorem step_no_bug (p : P) (h : Inv p) (op : Op) (hv : handlesValid p op = true
     simp only [step]
     exact p.allocSample_no_bug ⟨hT, hS⟩ t stack hv.1
   | markerType a b c => simp only [step]; split <;> simp
-  | marker t ty name strs => simp only [step]; exact (p.marker_TInv hT t ty name strs).2
+  | marker t ty name strs tm => simp only [step]; exact (p.marker_TInv hT t ty name strs tm).2
   | markerStack t m stack =>
     simp only [handlesValid, Bool.and_eq_true, decide_eq_true_eq] at hv
     simp only [step]
